@@ -402,6 +402,7 @@ func GenC01(seed uint64) *Plan {
 		p.Content.Events = append(p.Content.Events, EventSpec{Event: ev, Decoy: true})
 	}
 	g.transientFaults(p)
+	p.SharedPool = g.chance(20)
 	return p
 }
 
@@ -499,6 +500,7 @@ func GenC03(seed uint64) *Plan {
 		p.Faults.CrashPerMille = g.pickInt([]int{3, 8, 15})
 		p.Faults.Reconfig = true
 	}
+	p.SharedPool = g.chance(20)
 	return p
 }
 
@@ -516,6 +518,10 @@ func GenC04(seed uint64) *Plan {
 			s2.Batch, s2.Conc = s2.Conc, s2.Batch
 		}
 		s2.InitLen = g.between(12, 40)
+		if g.chance(35) {
+			// two sources of one chain (two providers, or a backfill split)
+			s2.ChainID = p.Sources[0].ChainID
+		}
 		p.Sources = append(p.Sources, s2)
 	}
 	nd := g.between(2, 3)
@@ -568,6 +574,9 @@ func GenC04(seed uint64) *Plan {
 	}
 	p.Faults.CrashPerMille = g.pickInt([]int{0, 3, 8})
 	p.Faults.Reconfig = g.chance(40)
+	// one shared pool and tasks built by the repository's own loadTasks in some
+	// runs (ownership is then attributed by stamp, not by connection)
+	p.SharedPool = g.chance(40)
 	return p
 }
 
